@@ -243,6 +243,17 @@ pub fn main(rest: &[String]) -> i32 {
         let capset: HashSet<i64> = pools.caps.iter().map(|m| proj::pack_move(*m)).collect();
         let quietset: HashSet<i64> = pools.quiets.iter().map(|m| proj::pack_move(*m)).collect();
 
+        // which generator branches this position reaches (statistics)
+        bump("pos_en_passant", pools.caps.iter().any(|m| m.is_en_passant()));
+        bump("pos_queen_promotion_push", !pools.qpush.is_empty());
+        bump("pos_capture_promotion", pools.caps.iter().any(|m| m.is_capture() && m.promotion().is_some()));
+        bump("pos_underpromotion_push", pools.quiets.iter().any(|m| m.promotion().is_some()));
+        bump("pos_castling", pools.quiets.iter().any(|m| m.is_castling()));
+        bump("pos_in_check", game.is_king_in_check());
+        bump("pos_no_legal_move", legal.is_empty());
+        bump("pos_no_capture_list_entry", pools.caps.is_empty() && !legal.is_empty());
+        bump("pos_more_than_4_capture_list_entries", pools.caps.len() > 4);
+
         let mut runs: Vec<Value> = Vec::new();
         for ri in 0..(a.contents + a.loud) {
             let loud = ri >= a.contents;
